@@ -33,9 +33,9 @@ PERFT = {  # published perft numbers (sanity of the specification itself, never 
 }
 
 TIERS = {
-    "quick": dict(bfs_cfg="ChessBfs.cfg", bfs_timeout=300, worlds=["ep2", "castle1"], sim_procs=16, sim_num=2, sim_depth=120,
+    "quick": dict(bfs_cfg="ChessBfs.cfg", bfs_timeout=300, worlds=["ep2", "castle1", "pin1", "chk1"], sim_procs=16, sim_num=2, sim_depth=120,
                   rec_shards=16, rec_games=2, rec_plies=50, rec_synth=40, perft_depth=2, perft_n=3),
-    "thorough": dict(bfs_cfg="ChessBfs2.cfg", bfs_timeout=1500, worlds=["ep1", "ep2full", "castle1", "castle2"], sim_procs=16, sim_num=25, sim_depth=300,
+    "thorough": dict(bfs_cfg="ChessBfs2.cfg", bfs_timeout=1500, worlds=["ep1", "ep2full", "castle1", "castle2", "pin1", "pin2", "chk1"], sim_procs=16, sim_num=25, sim_depth=300,
                      rec_shards=16, rec_games=16, rec_plies=120, rec_synth=500, perft_depth=3, perft_n=6),
 }
 
@@ -116,7 +116,7 @@ def shared_run(tier, seed):
     key = vlib.tree_hash(("rules", tier, seed),
                          spec_files=["ChessRules.tla", "Chess.tla", "ChessTrace.tla", "mc/ChessBfs.cfg", "mc/ChessBfs2.cfg", "mc/ChessSim.cfg",
                                      "mc/ChessTrace.cfg", "mc/ChessPerft.cfg", "mc/ChessPerft2.cfg", "mc/ChessWorld_ep1.cfg",
-                                     "mc/ChessWorld_ep2.cfg", "mc/ChessWorld_ep2full.cfg", "mc/ChessWorld_castle1.cfg", "mc/ChessWorld_castle2.cfg"],
+                                     "mc/ChessWorld_ep2.cfg", "mc/ChessWorld_ep2full.cfg", "mc/ChessWorld_castle1.cfg", "mc/ChessWorld_castle2.cfg", "mc/ChessWorld_pin1.cfg", "mc/ChessWorld_pin2.cfg", "mc/ChessWorld_chk1.cfg"],
                          lib_files=["rules.py", "vlib.py"])
     cdir = os.path.join(vlib.BUILD, "cache")
     os.makedirs(cdir, exist_ok=True)
